@@ -21,6 +21,11 @@ kf("KF-stage-mem-noload", ["C01", "C04"],
    "LoopIR_scheduling.DoStageMem (`if actualR and not WShadow`)",
    {"op": ["stage_mem", "std.auto_stage_mem"], "kind": ["value-mismatch", "uninit"], "cause": RE(r"^result-undefined,staged-copy-only-written$")},
    "seed loops/l2: stage_mem(body of j-loop, 'b[0:m, 0:n]', 'b_stg')")
+kf("KF-sink-alloc-else", ["C01", "C04"],
+   "sink_alloc into an if with an else branch gives the else copy of the allocation a fresh Sym while the else body keeps using the original one (unbound); the golden file test_sink_alloc_when_if_has_else.txt pins this output (`a_1[1] = 1.0`), so it cannot be repaired without editing the suite",
+   "LoopIR_scheduling.DoSinkAlloc (`else_alloc = Alpha_Rename([alloc_stmt])`)",
+   {"op": ["sink_alloc"], "kind": UNB, "cause": RE(r"^unbound-alloc,use:[\w-]+(,block-has-binder)?,scope-has-else$")},
+   "seed guard/alloc_else: sink_alloc(`t: f32`)")
 kf("KF-add-loop-binder", ["C01", "C04"],
    "add_loop wraps an allocation / window statement in a new loop, ending its scope while later statements still use it",
    "LoopIR_scheduling.DoAddLoop (no check that the wrapped statement binds no name)",
